@@ -4,7 +4,7 @@ from facts import strip_generics, callee_of
 import sym
 import writer_tab as wt
 
-CONFIGS_QUICK = ["F_all"]
+CONFIGS_QUICK = ["F_all", "F_def"]  # every configuration whose cfg-gated code the property depends on
 CONFIGS_THOROUGH = ["F_all", "F_def"]
 TECHNIQUE = 'static analysis: must-call (escape) and operand provenance on MIR paths, literal sequences of the attribute writer, sibling table equality sync/async writer, ElementWriter order'
 EXPLANATION = (
@@ -42,6 +42,19 @@ def r1_escaping(ctx):
                 okv = bool(esc) and ends_with_fields(strip_wrappers(esc[0][3][0]), "1") and (has_subterm(val, lambda s: call_is(s, "escape::escape")) or has_subterm(val, lambda s: s[0] == "pl" and call_is(s[1], "escape::escape")))
                 okk = not has_subterm(key, lambda s: call_is(s, "escape::escape")) and has_subterm(key, lambda s: s[0] == "pl" and ends_with_fields(s, "0"))
             ctx.ob("R1", "%s" % sym.short(strip_generics(x.path)), okv and okk, "the value (tuple field 1) is escaped with escape(), the key (field 0) is stored as is", config=cfg)
+        esc = ctx.body(F, "events::BytesCData::escaped", "R1")
+        if esc is not None:
+            for p in ctx.paths(esc):
+                r = ret_of(p)
+                if r is None:
+                    continue
+                ad = F.adt("quick_xml::events::CDataIterator")
+                names = [f["name"] for f in ad["variants"][0]["fields"]] if ad else []
+                ok = r[0] == "agg" and len(r[3]) == len(names) == 2
+                if ok:
+                    vals = dict(zip(names, r[3]))
+                    ok = strip_wrappers(vals.get("finished", ("?",))) == ("c", "bool", False) and has_subterm(vals.get("unprocessed", ("?",)), lambda s2: s2[0] == "arg" and s2[2] == "content")
+                ctx.ob("R1", "BytesCData::escaped:initial", ok, "the splitting iterator starts unfinished over the whole content: %s" % sym.show(r, 2), config=cfg)
         it = F.bodies_with("events::CDataIterator", "Iterator", end="next")
         ctx.ob("R1", "CDataIterator::next:anchor", len(it) == 1, "found", config=cfg)
         for x in it:
